@@ -98,3 +98,22 @@ Definition g_add_duration_date (d : gdate) (years months weeks days : Z) : resul
   | Ok r => Ok (mkgdate (n_wall r))
   | Raise e => Raise e
   end.
+
+(* ---- the tz ARGUMENT of _safe_timezone / DateTime.instance in all the kinds the code distinguishes (gtzarg) ----
+   ta_kind: 0 a pendulum Timezone / FixedTimezone object (ta_tz); 3 a string naming a zone (ta_named = the cached object pendulum.timezone(name)
+   returns); 4 an int number of hours (ta_hours); 5 a FOREIGN datetime.tzinfo object, described by what the code asks of it: hasattr(obj, "key")
+   and the cached Timezone for obj.key, hasattr(obj, "localize") and the cached Timezone for obj.zone, obj.tzname(None) == "UTC", obj.utcoffset(dt)
+   (None or microseconds); 6 / 7: the intermediate values the function rebinds obj to (a name taken from .key / .zone; an int offset in seconds).
+   None and the string "local" (system local timezone) are OUT OF SCOPE.  pendulum.timezone(int) returns the FixedTimezone cached for that
+   offset: g_fixed_tz (identity tag an injective function of the offset). *)
+Record gtzarg := mkgtzarg { ta_kind : Z; ta_tz : gtz; ta_named : gtz; ta_hours : Z; ta_has_key : bool; ta_key_named : gtz;
+                            ta_has_localize : bool; ta_zone_named : gtz; ta_tzname_utc : bool; ta_utcoffset : option Z; ta_offset : Z }.
+Definition ta_name_spec (named : gtz) (o : gtzarg) : gtzarg :=
+  mkgtzarg 6 (ta_tz o) named 0 false (ta_key_named o) false (ta_zone_named o) false None 0.
+Definition ta_key (o : gtzarg) : gtzarg := ta_name_spec (ta_key_named o) o.
+Definition ta_zone (o : gtzarg) : gtzarg := ta_name_spec (ta_zone_named o) o.
+Definition ta_of_offset (secs : Z) (o : gtzarg) : gtzarg :=
+  mkgtzarg 7 (ta_tz o) (ta_named o) 0 false (ta_key_named o) false (ta_zone_named o) false None secs.
+Definition g_fixed_tz (off : Z) : gtz := mkgtz (1000000 + off) true off (fixed_zone off).
+(* pendulum.timezone(name | int) on the value _safe_timezone ends with *)
+Definition g_timezone (o : gtzarg) : gtz := if ta_kind o =? 7 then g_fixed_tz (ta_offset o) else ta_named o.
